@@ -121,6 +121,11 @@ CircleMasks(M) == { CircleDef(M, rq, cq, cq, "middle") : rq \in {2*M - 2, 2*M - 
               \cup { [p \in Pix(M) |-> CircleDef(M, 2*M, 0, 0, "middle")[p] - CircleDef(M, (2*M) \div 3, 0, 0, "middle")[p]] }
 
 MasksFor(M) == IF M <= MaxAllMask THEN AllMasks(M) ELSE CircleMasks(M)
+\* "attained fill" family: the threshold IS a fill some cell can have, k / (cell area), on masks with every possible number of lit
+\* pixels (the first k pixels in raster order) - the cells that sit exactly on the threshold must be selected.
+\* Such a threshold is written <<k, area, "attained">>.
+StairMasks(M) == { [p \in Pix(M) |-> IF p[1] * M + p[2] < k THEN 1 ELSE 0] : k \in 0..(M*M) }
+IsAttained(th) == Len(th) = 3
 SubapCfgs ==
     UNION { { [M |-> M, S |-> S, th |-> th, mask |-> m] : S \in 1..M, th \in Thresholds, m \in MasksFor(M) } :
             M \in 1..MaxM }
@@ -176,6 +181,8 @@ Init ==
     /\ \/ \E n \in 1..MaxN, o \in Origins, rq \in 0..(4*MaxN) :
              rq <= 4*n /\ mode = "circle" /\ cfg = [n |-> n, origin |-> o, rq |-> rq]
        \/ \E M \in 1..MaxM : \E S \in 1..M, th \in Thresholds : mode = "subaps" /\ cfg = [M |-> M, S |-> S, th |-> th]
+       \/ \E M \in 1..MaxM : \E S \in 1..M : M % S = 0 /\ \E k \in 0..((M \div S) * (M \div S)) :
+             mode = "subaps" /\ cfg = [M |-> M, S |-> S, th |-> <<k, (M \div S) * (M \div S), "attained">>]
        \/ \E M \in 1..MaxAllMask : mode = "scatter" /\ cfg = [M |-> M]
 
 ChooseCircle ==
@@ -186,7 +193,7 @@ ChooseCircle ==
 
 ChooseSubaps ==
     /\ mode = "subaps" /\ pc = "choose"
-    /\ \E m \in MasksFor(cfg.M) : cfg' = [M |-> cfg.M, S |-> cfg.S, th |-> cfg.th, mask |-> m]
+    /\ \E m \in (IF IsAttained(cfg.th) THEN StairMasks(cfg.M) ELSE MasksFor(cfg.M)) : cfg' = [M |-> cfg.M, S |-> cfg.S, th |-> cfg.th, mask |-> m]
     /\ pc' = "loop" /\ x' = 0 /\ y' = 0 /\ out' = [coords |-> <<>>, fills |-> <<>>]
     /\ UNCHANGED mode
 
